@@ -126,7 +126,7 @@ func (x *FnExec) call(fr *Frame, cc *ssa.CallCommon, instr ssa.Value, st *State,
 	x.curStatic = static
 	defer func() { x.curStatic = nil }()
 	if fr.top && x.top != nil && len(x.top.CallAsserts) > 0 {
-		x.callAsserts(fr, cc, args, st, g, pos)
+		x.callAsserts(fr, cc, instr, args, st, g, pos)
 	}
 	// inferred effect contract (effects.go): the callee may read the wall clock as data
 	if x.top != nil && x.top.TrackClock {
@@ -199,7 +199,7 @@ func (x *FnExec) call(fr *Frame, cc *ssa.CallCommon, instr ssa.Value, st *State,
 }
 
 // callAsserts: obligations attached to call sites of the function under verification (clause callassert).
-func (x *FnExec) callAsserts(fr *Frame, cc *ssa.CallCommon, args []Value, st *State, g *Term, pos token.Pos) {
+func (x *FnExec) callAsserts(fr *Frame, cc *ssa.CallCommon, instr ssa.Value, args []Value, st *State, g *Term, pos token.Pos) {
 	for _, ca := range x.top.CallAsserts {
 		match := false
 		if sc := cc.StaticCallee(); sc != nil && sc.Name() == ca.Callee {
@@ -219,6 +219,9 @@ func (x *FnExec) callAsserts(fr *Frame, cc *ssa.CallCommon, args []Value, st *St
 			continue
 		}
 		ev := x.specEnv(fr, st, x.entry, x.top)
+		if ii, ok := instr.(ssa.Instruction); ok {
+			ev.atInstr = ii
+		}
 		var ats []types.Type
 		if cc.IsInvoke() {
 			ats = append(ats, cc.Value.Type())
